@@ -80,7 +80,8 @@ def mofun_cli(inputpath, outputpath,
             atoms = replace_pattern_in_structure(atoms, search_pattern, replace_pattern, atol=atol,
                 axisp1_idx=axisp1_idx, axisp2_idx=axisp2_idx, opoint_idx=opoint_idx, replace_fraction=replace_fraction)
         else:
-            results = find_pattern_in_structure(atoms, search_pattern, atol=atol)
+            results = find_pattern_in_structure(atoms, search_pattern, atol=atol,
+                axisp1_idx=axisp1_idx, axisp2_idx=axisp2_idx, opoint_idx=opoint_idx)
             print("Found %d instances of the search_pattern in the structure" % len(results))
             print(results)
 
